@@ -36,7 +36,7 @@ def loops_of(gb):
     return re.findall(r'^Loop (.*)\.(\d+):$', out, re.M)
 
 
-def fill(template_path, gb, out_path, incdirs=()):
+def fill(template_path, gb, out_path, incdirs=(), fallbacks=None):
     """returns the number of loop contracts written.  An entry marked "optional_if_loop_free" is dropped when the function
     (as it is in the current tree) has no loop with that id: the function contract is then enforced without a loop contract."""
     tpl = json.load(open(template_path))
@@ -57,11 +57,20 @@ def fill(template_path, gb, out_path, incdirs=()):
                         if key in lp:
                             lp[key] = cpp_expand(lp[key], cppargs, list(incdirs))
                 pairs = []
+                missing = None
                 for name in locs:
                     cands = [s for s in syms if s.startswith(prefix + '::') and s.endswith('::' + name)]
                     if len(cands) != 1:
-                        raise LoopMapError(f'local {name} of {prefix}: {len(cands)} candidates {cands[:4]}')
+                        missing = f'local {name} of {prefix}: {len(cands)} candidates {cands[:4]}'
+                        break
                     pairs.append(f'{name},{cands[0]}')
+                if missing:
+                    if lp.get('fallback_unwind') and fallbacks is not None:
+                        fallbacks.append(int(lp['fallback_unwind']))
+                        loops.remove(lp)
+                        continue
+                    raise LoopMapError(missing)
+                lp.pop('fallback_unwind', None)
                 if pairs:
                     lp['symbol_map'] = ';'.join(pairs)
                 nloops += 1
